@@ -408,7 +408,8 @@ def select__descendant_path(self: XPathToken, context: ta.ContextType = None) \
         for _ in context.iter_descendants():
             for result in self[0].select(context):
                 if not isinstance(result, XPathNode):
-                    items.add(result)
+                    # A step that returns atomic values: no document order, no deduplication
+                    yield result
                 elif result in items:
                     pass
                 elif isinstance(result, ElementNode):
